@@ -216,8 +216,13 @@ static void model_case(Rng& r) {
 // hostile mode: mutated wire, getters, then edits — only libtins exceptions, no memory errors
 static void hostile_case(Rng& r) {
     g_pool.clear(); Msg m; m.id = 1; m.flags = 0x8180; for (int s = 0; s < 4; ++s) for (u32 k = r.below(4); k--;) m.sec[s].push_back(gen_rec(r, s == 0));
+    // names at and just beyond the representable limits (dotted length 250..262), built label by label
+    if (r.chance(1, 4)) { std::string n; u32 target = 250 + r.below(13); while (n.size() < target) { u32 room = target - (u32)n.size() - (n.empty() ? 0 : 1); if (!room) break; u32 l = std::min<u32>(room, r.chance(1, 3) ? 1 + r.below(63) : 63); if (!n.empty()) n += '.'; n += std::string(l, (char)('a' + r.below(26))); }
+        Rec rc{}; rc.name = n; rc.type = r.chance(1, 2) ? T_A : T_CNAME; rc.cls = 1; rc.ttl = 1; rc.addr = r.bytes(4); rc.target = n; int s = (int)r.below(4); m.sec[s].push_back(rc); if (s == 0) m.sec[0].back().type = T_A; cnt("hostile_overlong_name"); }
     Enc e; e.mode = (int)r.below(3); e.r = &r; Bytes w = e.message(m);
-    for (u32 k = 1 + r.below(4); k--;) { if (w.empty()) break; u32 pos = r.below((u32)w.size());
+    // a compression pointer designating the end of the message, one before, one past
+    if (r.chance(1, 4) && w.size() > 14) { u32 pos = 12 + r.below((u32)w.size() - 13); long tgt = (long)w.size() + (long)r.below(5) - 2; w[pos] = (u8)(0xc0 | ((tgt >> 8) & 0x3f)); w[pos + 1] = (u8)tgt; cnt("hostile_pointer_to_end"); }
+    for (u32 k = r.below(4); k--;) { if (w.empty()) break; u32 pos = r.below((u32)w.size());
         switch (r.below(7)) { case 0: w[pos] ^= (u8)(1 << r.below(8)); break; case 1: w[pos] = 0xc0; break; case 2: w[pos] = 0xff; break; case 3: w.resize(pos); break; case 4: if (pos >= 4 && pos < 12) w[pos] = (u8)r.below(4); else w[pos] = r.byte(); break;
             case 5: { if (pos + 1 < w.size()) { u16 t = (u16)(0xc000 | r.below(r.chance(1, 2) ? (u32)w.size() + 4 : 0x3fff)); w[pos] = (u8)(t >> 8); w[pos + 1] = (u8)t; } break; } default: w[pos] = 0x40 | (u8)r.below(64); } }
     std::string hist = "hostile wire=" + hex(w, 1500) + " "; describe_case(hist);
